@@ -235,6 +235,43 @@ def _native_roundtrips(tier="quick", seed=0):
             rec["model"] = {"chart_type": name}
             rec["replay"] = {"confirmed": True, "detail": "add_chart(%s) reads back %s" % (name, got), "witness_class": "chart-type-readback"}
         obls.append(rec)
+    # every XML-mapped enumeration in ONE process, in two visiting orders: a member must map back to itself whatever other
+    # enumerations have been consulted before (no state shared between enumerations)
+    import importlib
+    import pkgutil
+
+    import pptx.enum as _enum_pkg
+    from pptx.enum.base import BaseXmlEnum
+
+    enums = []
+    for mi in pkgutil.iter_modules(_enum_pkg.__path__, "pptx.enum."):
+        mod = importlib.import_module(mi.name)
+        for nm_, obj in sorted(vars(mod).items()):
+            if isinstance(obj, type) and issubclass(obj, BaseXmlEnum) and obj is not BaseXmlEnum and obj.__module__ == mod.__name__:
+                enums.append(obj)
+    bad = None
+    for order in (enums, list(reversed(enums))):
+        for E in order:
+            tokens = {}
+            for m in E:
+                if m.xml_value:
+                    tokens.setdefault(m.xml_value, []).append(m)
+            for tok, ms in tokens.items():
+                n += 1
+                try:
+                    got = E.from_xml(tok)
+                except Exception as e:
+                    bad = bad or "%s.from_xml(%r) raised %r after other enumerations were read" % (E.__name__, tok, e)
+                    continue
+                if not isinstance(got, E) or got not in ms:
+                    bad = bad or "%s.from_xml(%r) gave %r (a member of %s) after other enumerations were read" % (E.__name__, tok, got, type(got).__name__)
+    nm = "C20.native.enums_do_not_share_state"
+    rec = {"name": nm, "base": nm, "kind": "ground", "status": "refuted" if bad else "discharged", "backend": "native", "time": 0, "path": 0,
+           "claim": "from_xml(token) of every enumeration gives a member of that enumeration carrying that token, in any visiting order"}
+    if bad:
+        rec["model"] = None
+        rec["replay"] = {"confirmed": True, "detail": bad, "witness_class": "enum-shared-state"}
+    obls.append(rec)
     return {"contract": "C20.native_roundtrips", "prop": "C20", "status": "ok", "obligations": obls, "paths": 1, "assumed": [], "functions": {},
             "notes": [], "solver_s": 0.0, "wall_s": _t.time() - t0,
             "coverage": {"exhaustive": True, "chart_types_not_writable": unsupported,
